@@ -62,3 +62,101 @@ def netPC : Net :=
              ((3, 1), ⟨[(3, 3), (2, 2), (1, 1)], 0, 6, 0⟩), ((3, 4), ⟨[(3, 3), (3, 6)], 0, 1, 3 / 4⟩)] }
 
 end Pops.NV
+
+namespace Pops.NV
+open Pops.Net
+
+theorem exists_ok_of_isSome {ε α : Type} {x : Except ε α} (h : x.toOption.isSome = true) :
+    ∃ a, x = .ok a := by
+  cases x with
+  | error e => simp [Except.toOption] at h
+  | ok a => exact ⟨a, rfl⟩
+
+theorem all_parse_of_check (g : Grid) (hc hp : Bool) (pre : List (List Char))
+    (h : (pre.all fun l => (parseRecord g hc hp l).toOption.isSome) = true) :
+    ∀ l' ∈ pre, ∃ r, parseRecord g hc hp l' = .ok r := by
+  simp only [List.all_eq_true] at h
+  exact fun l' hl => exists_ok_of_isSome (h l' hl)
+
+/-! Records (one input line each) -/
+
+/-- Three points, the first two in one cell: merged to two cells. No cost column. -/
+def lineMerge : List Char := "1,2,21.5;7.5;21.75;7.5;23.5;7.5".toList
+def recMerge : Rec := ⟨(1, 2), ⟨[(1, 1), (1, 3)], 3 / 2, 0, 0⟩, (43 / 2, 15 / 2), (47 / 2, 15 / 2)⟩
+
+/-- Both points in one cell: completed to `[c, c]`. -/
+def lineOneCell : List Char := "1,2,21.5;7.5;21.75;7.5".toList
+def recOneCell : Rec := ⟨(1, 2), ⟨[(1, 1), (1, 1)], 3 / 2, 0, 0⟩, (43 / 2, 15 / 2), (87 / 4, 15 / 2)⟩
+
+/-- Probability and cost columns, three cells, stated cost 6. -/
+def linePC : List Char := "3,1,0.125,6,23.5;3.5;22.5;5.5;21.5;7.5".toList
+def recPC : Rec := ⟨(3, 1), ⟨[(3, 3), (2, 2), (1, 1)], 0, 6, 1 / 8⟩, (47 / 2, 7 / 2), (43 / 2, 15 / 2)⟩
+
+/-- Both end points inside the box. -/
+def lineInside : List Char := "2,3,23.5;7.5;23.5;3.5".toList
+def recInside : Rec := ⟨(2, 3), ⟨[(1, 3), (3, 3)], 3 / 2, 0, 0⟩, (47 / 2, 15 / 2), (47 / 2, 7 / 2)⟩
+
+/-- Second end point half a cell east of the box: kept by the coded rule (region of F17). -/
+def lineEdge : List Char := "3,4,23.5;3.5;30.5;3.5".toList
+def recEdge : Rec := ⟨(3, 4), ⟨[(3, 3), (3, 10)], 3 / 2, 0, 0⟩, (47 / 2, 7 / 2), (61 / 2, 7 / 2)⟩
+
+end Pops.NV
+
+namespace Pops.NV
+open Pops.Det
+
+/-! ### C14: a 3 x 5 window (rows != cols, 15 cells), weights `r_i * c_j / 40` with
+    `r = [1, 2, 1]`, `c = [1, 2, 4, 2, 1]`: non-uniform, mirror symmetric, maximum 1/5 at the centre. -/
+
+def window : List Rat :=
+  [1 / 40, 1 / 20, 1 / 10, 1 / 20, 1 / 40,
+   1 / 20, 1 / 10, 1 / 5, 1 / 10, 1 / 20,
+   1 / 40, 1 / 20, 1 / 10, 1 / 20, 1 / 40]
+
+/-- `mapM` of a function that never throws. -/
+theorem mapM_ok_of_forall {β γ : Type} (f : β → Except ErrKind γ) (g : β → γ) (hf : ∀ b, f b = .ok (g b)) :
+    ∀ l : List β, l.mapM f = .ok (l.map g) := by
+  intro l
+  induction l with
+  | nil => rfl
+  | cons x xs ih => rw [List.mapM_cons, hf x, ih]; rfl
+
+/-- The constructor body evaluated from its four intermediate results. -/
+theorem buildLaw_eq {α : Type} (T : TF α) (lw : Det.Law) (pct ew ns scale shape dmax : α) (r c : Int)
+    (raw : List α) (hd : lawIcdf T lw scale shape pct = .ok dmax) (hw : windowDims T dmax ns ew = (r, c))
+    (hnn : ¬ r * c < 0)
+    (hraw : rawWeights T lw scale shape ns ew r.toNat c.toNat (Int.tdiv r 2) (Int.tdiv c 2) = .ok raw) :
+    buildLaw T lw pct ew ns scale shape =
+      .ok { law := some lw, rows := r, cols := c, midRow := Int.tdiv r 2, midCol := Int.tdiv c 2,
+            dmax := dmax, prob := raw.map (T.div · (sumScan T raw)) } := by
+  unfold buildLaw
+  rw [hd]
+  simp only [hw, hnn, if_false, hraw]
+
+/-! ### C13 / C17: configurations -/
+
+/-- Weibull natural kernel towards NE, Cauchy anthropogenic kernel towards W, anthropogenic
+    dispersal enabled with natural share 3/4, resolutions 30 (east-west) and 10 (north-south). -/
+def cfg : KernelConfig :=
+  { rows := 3, cols := 7, ewRes := 30, nsRes := 10, dispersalStochasticity := true,
+    dispersalPercentage := 99 / 100, shape := 2, naturalKernelType := "weibull", naturalScale := 5,
+    naturalDirection := "NE", naturalKappa := 3, useAnthropogenicKernel := true,
+    percentNaturalDispersal := 3 / 4, anthroKernelType := "Cauchy", anthroScale := 40, anthroDirection := "W",
+    anthroKappa := 1, networkMovement := "walk", networkMinDistance := 0, networkMaxDistance := 100 }
+
+def cfgUniform : KernelConfig := { cfg with naturalKernelType := "uniform", anthroKernelType := "Uniform" }
+def cfgNeighbor : KernelConfig := { cfg with naturalKernelType := "Deterministic-neighbor", naturalDirection := "S" }
+def cfgBadName : KernelConfig := { cfg with naturalKernelType := "exponential_power" }
+
+/-- `create_overpopulation_movement_kernel` succeeds when the four names are known and the rescaled
+    scale and the shape are positive. -/
+theorem createOverpop_ok (c : KernelConfig) (coef : Rat) (t a : DispersalKernelType) (d ad : Direction)
+    (hk : kernelTypeFromString c.naturalKernelType = .ok t) (ha : kernelTypeFromString c.anthroKernelType = .ok a)
+    (hd : directionFromString c.naturalDirection = .ok d) (had : directionFromString c.anthroDirection = .ok ad)
+    (hok : radialCtorOk (c.naturalScale * coef) c.shape = true) :
+    ∃ k, createOverpopulationKernel c coef = .ok k := by
+  simp only [createOverpopulationKernel, modelKernelMembers, hk, ha, hd, had, hok, bind, Except.bind, pure,
+    Except.pure, if_true]
+  exact ⟨_, rfl⟩
+
+end Pops.NV
